@@ -115,6 +115,28 @@ def arg_for(call: ast.Call, fn: ast.AST, pname: str, *, bound_self: bool = False
     return None
 
 
+def default_of(fn: ast.AST, pname: str) -> Optional[ast.AST]:
+    """The default value expression of formal ``pname`` of ``fn`` (None if it has none)."""
+    a = fn.args
+    pos = list(a.posonlyargs) + list(a.args)
+    for x, d in zip(pos[len(pos) - len(a.defaults):], a.defaults):
+        if x.arg == pname:
+            return d
+    for x, d in zip(a.kwonlyargs, a.kw_defaults):
+        if x.arg == pname:
+            return d
+    return None
+
+
+def at_default(call: ast.Call, fn: ast.AST, pname: str, *, bound_self: bool = False) -> bool:
+    """Formal ``pname`` takes its default at ``call``: not passed, or passed the very constant that is its default."""
+    v = arg_for(call, fn, pname, bound_self=bound_self)
+    if v is None:
+        return True
+    d = default_of(fn, pname)
+    return d is not None and isinstance(d, ast.Constant) and isinstance(v, ast.Constant) and type(d.value) is type(v.value) and d.value == v.value
+
+
 def param_names(fn: ast.AST) -> List[str]:
     a = fn.args
     out = [x.arg for x in list(a.posonlyargs) + list(a.args)]
@@ -150,8 +172,19 @@ class FunctionInfo:
 
     def locals_named(self, name: str) -> "FunctionInfo":
         q = f"{self.qualname}.<locals>.{name}"
-        f = self.module.project.functions.get(q)
+        fs = self.module.project.functions
+        f = fs.get(q)
         if f is None:
+            # a closure-free helper may have been moved out of the function: to module level or next to the method in its class
+            owners = [self.module.name]
+            if self.cls is not None:
+                owners.insert(0, self.cls.qualname)
+            for o in owners:
+                for n in (name, "_" + name.lstrip("_"), "__" + name.lstrip("_")):
+                    g = fs.get(f"{o}.{n}")
+                    if g is not None and g is not self and any(
+                            isinstance(x, (ast.Name, ast.Attribute)) and (x.id if isinstance(x, ast.Name) else x.attr) == n for x in ast.walk(self.node)):
+                        return g
             raise AnalysisError(f"anchor vanished: nested function {q}")
         return f
 
